@@ -27,7 +27,7 @@ fn mk(x: u32) -> Arc<Cfg> {
     Arc::new(Cfg { mid: Mid { inner: Inner { x, tag: format!("t{}", x) }, pad: [0; 3] }, list: vec![x; 3] })
 }
 
-pub const SHAPES: u8 = 9;
+pub const SHAPES: u8 = 10;
 
 #[derive(Clone, Debug, PartialEq, Eq, Serialize, Deserialize)]
 pub enum AOp {
@@ -100,6 +100,21 @@ fn load_shape(shape: u8, a: &Arc<ArcSwap<Cfg>>) -> G {
             let d2: Box<dyn DynAccess<u32> + '_> = Box::new(m);
             Box::new(DynAccess::load(&*d2))
         }
+        // a projection that hands out the pointer stored inline in the guard itself
+        9 => {
+            struct ViaArc<Gd: Deref<Target = Arc<Cfg>>>(Gd);
+            impl<Gd: Deref<Target = Arc<Cfg>>> Deref for ViaArc<Gd> {
+                type Target = u32;
+                fn deref(&self) -> &u32 {
+                    &self.0.mid.inner.x
+                }
+            }
+            fn ident(p: &Arc<Cfg>) -> &Arc<Cfg> {
+                p
+            }
+            let m = Map::new(Arc::clone(a), ident as fn(&Arc<Cfg>) -> &Arc<Cfg>);
+            Box::new(ViaArc(Access::<Arc<Cfg>>::load(&m)))
+        }
         // direct access through the container itself (Access<Cfg>), projected by hand
         _ => {
             struct Direct<Gd: Deref<Target = Cfg>>(Gd);
@@ -113,6 +128,29 @@ fn load_shape(shape: u8, a: &Arc<ArcSwap<Cfg>>) -> G {
             Box::new(Direct(g))
         }
     }
+}
+
+impl Clone for Inner {
+    fn clone(&self) -> Self {
+        Inner { x: self.x, tag: self.tag.clone() }
+    }
+}
+impl Clone for Mid {
+    fn clone(&self) -> Self {
+        Mid { inner: self.inner.clone(), pad: self.pad }
+    }
+}
+fn kc_clone(k: &Constant<Inner>) -> Constant<Inner> {
+    Constant(k.0.clone())
+}
+#[inline(never)]
+fn stack_noise(seed: u64) -> u64 {
+    let mut a = [0u64; 64];
+    for (i, x) in a.iter_mut().enumerate() {
+        *x = seed.wrapping_mul(0x9E3779B97F4A7C15).wrapping_add(i as u64) | 2;
+    }
+    std::hint::black_box(&mut a);
+    a.iter().fold(0u64, |s, x| s ^ x) | 2
 }
 
 #[derive(Default, Clone, Debug, Serialize, Deserialize)]
@@ -208,6 +246,19 @@ pub fn run_case(c: &ACase) -> Result<AStats, String> {
                 let kd: &dyn DynAccess<u32> = &k;
                 if *kg != 7 || *DynAccess::load(kd) != 7 {
                     return Err("Constant does not yield its own value".into());
+                }
+                // projections over a Constant point into the guard object itself; the guard is
+                // moved (boxed, pushed) and the stack is reused before it is dereferenced
+                let kc = Constant(Inner { x: 7, tag: "k".into() });
+                let g1: G = Box::new(Access::load(&Map::new(kc_clone(&kc), p_x as fn(&Inner) -> &u32)));
+                let g2: G = Box::new(Access::load(&Map::new(Map::new(Constant(Mid { inner: Inner { x: 9, tag: "m".into() }, pad: [1; 3] }), p_inner as fn(&Mid) -> &Inner), p_x as fn(&Inner) -> &u32)));
+                let d: Box<dyn DynAccess<u32>> = Box::new(Map::new(kc_clone(&kc), p_x as fn(&Inner) -> &u32));
+                let g3 = DynAccess::load(&*d);
+                let mut keep: Vec<G> = vec![g1, g2, Box::new(g3)];
+                let noise = stack_noise(n as u64);
+                keep.rotate_left(1);
+                if **keep[2] != 7 || **keep[0] != 9 || **keep[1] != 7 || noise == 1 {
+                    return Err(format!("op {}: projections over Constant yield {} {} {} instead of 7 9 7", n, **keep[2], **keep[0], **keep[1]));
                 }
             }
         }
